@@ -6,7 +6,7 @@ wt = f"/tmp/seed-{pid}"
 p = next(json.loads(l) for l in open('/verif/properties.jsonl') if json.loads(l)['id'] == pid)
 print(f"""You are a careful software engineer playing the role of a *realistic bug seeder* for the Python library mbsantiago/soundevent (bioacoustics data schemas, AOEF JSON I/O, geometry operations, evaluation). You have your own scratch git worktree of the library at **{wt}** (a detached checkout; the source is under {wt}/src/soundevent, the tests under {wt}/tests). Work ONLY inside {wt}. Do not read or write /verif, /repo or /work (they are off limits; do not even list them).
 
-IMPORTANT environment facts: run Python as `/venv/bin/python`; always set `PYTHONPATH={wt}/src` (the interpreter's installed copy of the library points elsewhere, so without PYTHONPATH you would silently test a different checkout). Run the existing test suite with: `cd {wt} && PYTHONPATH={wt}/src /venv/bin/python -m pytest -q -p no:cacheprovider --timeout=900` (about 10–20 s; 4 tests in tests/test_audio about a 24-bit WAV fixture fail on the pristine tree already — ignore exactly those). There is no network.
+IMPORTANT environment facts: run Python as `/venv/bin/python`; always set `PYTHONPATH={wt}/src` (the interpreter's installed copy of the library points elsewhere, so without PYTHONPATH you would silently test a different checkout). Run the existing test suite with: `cd {wt} && PYTHONPATH={wt}/src /venv/bin/python -m pytest -q -p no:cacheprovider --timeout=900` (about 10–20 s; 3 tests in tests/test_audio (24-bit WAV / media-info fixtures) fail on the pristine tree already — ignore exactly those). There is no network.
 
 The library is supposed to satisfy this semantic property:
 
@@ -15,7 +15,7 @@ The library is supposed to satisfy this semantic property:
   It must hold: {p['quantifier']['text']}
 
 Your task: produce TWO independent, different source changes to the library (each a small patch to files under src/soundevent) such that, with the change applied,
-  (a) the library still imports and the existing test suite still passes exactly as before (same 4 pre-existing failures, nothing else), and
+  (a) the library still imports and the existing test suite still passes exactly as before (same 3 pre-existing failures, nothing else), and
   (b) the property above is violated for some input — but only for inputs/situations that need something *specific* to manifest: an unusual or boundary input, a particular combination of options, a multi-step sequence of operations, one branch of several, one of several types or construction paths, or two cooperating edits that each look fine alone. Do NOT make changes that ordinary use or a casual smoke test would expose at once (e.g. breaking every call), and do not touch tests, docs or packaging.
 Make the two changes different in kind (different function / mechanism / type), and make each look like a plausible refactoring or "optimisation" mistake a real contributor could make.
 
